@@ -707,7 +707,8 @@ impl Model {
                     // (likewise a cutoff this view itself has had: under Cutoff::Never, say, it latched a
                     // "changed" verdict on an equal projection while its input view did not pass the
                     // change on, so it was not recomputed then)
-                    if !c && matches!(s.rk, RK::MapRef { .. } | RK::MapRefQ { .. }) && (s.had_noneq_cutoff || !s.cutoff.only_suppresses_equal() || self.nodes[h].cutoff_set) {
+                    // (and the suppressing view may be anywhere further up the chain of views)
+                    if !c && matches!(s.rk, RK::MapRef { .. } | RK::MapRefQ { .. }) && (self.view_input_had_noneq_cutoff(*src) || self.nodes[h].cutoff_set) {
                         maybe = true;
                     }
                     c
